@@ -49,6 +49,37 @@ fn run_scenario(line: &str) -> Vec<String> {
             }
             continue;
         }
+        if mode == "counters" {
+            // (counters N): a div with N dynamic views, each of which takes a stable counter value when it is built (an id for a label /
+            // input pair, say) and creates one element
+            let n_dyn: usize = r[1].num();
+            let res = panic::catch_unwind(AssertUnwindSafe(|| {
+                let mut n = 0;
+                let mut sc = (0, 0);
+                let s = render_to_string(|| {
+                    n = verif::node_count();
+                    sc = (use_stable_counter(), use_stable_counter());
+                    let kids: Vec<View> = (0..n_dyn)
+                        .map(|_| {
+                            View::from_dynamic(move || {
+                                let id = use_stable_counter();
+                                View::from(tags::span().id(format!("l{id}")))
+                            })
+                        })
+                        .collect();
+                    tags::div().children(kids).into()
+                });
+                format!("{} n={} sc={},{}", hex(&s), n, sc.0, sc.1)
+            }));
+            match res {
+                Ok(s) => out.push(s),
+                Err(_) => {
+                    out.push("PANIC".to_string());
+                    break;
+                }
+            }
+            continue;
+        }
         let sig_spec = r[1].clone();
         let view = parse_view(&r[2]);
         // `synccf`: the same render with every element's children built before the element itself
